@@ -728,9 +728,20 @@ def plainColorProps : List (List Char) := ["color", "caret-color", "outline-colo
 
 def msFilterAlpha : List Char := S "progid:DXImageTransform.Microsoft.Alpha(Opacity="
 
+/-- the properties `minifyProperty` has a case for (the `switch prop` labels of css.go) -/
+def rewrittenProps : List (List Char) :=
+  ["font", "font-family", "font-weight", "url", "margin", "padding", "border-width", "border", "border-bottom",
+   "border-left", "border-right", "border-top", "outline", "background", "background-size", "background-repeat",
+   "background-position", "box-shadow", "-ms-filter", "color", "background-color", "border-color",
+   "border-left-color", "border-right-color", "border-top-color", "border-bottom-color", "text-decoration-color",
+   "text-emphasis-color", "caret-color", "outline-color", "fill", "stroke", "column-rule", "text-shadow",
+   "text-decoration", "text-emphasis", "flex", "flex-basis", "order", "flex-grow", "flex-shrink",
+   "unicode-range"].map S
+
 /-- `minifyProperty`; `none` = property outside the model (`font`, `background`, `url`) or value outside it -/
 def minifyProperty (o : Opts) (prop : List Char) (vs : List Tok) : Option (List Tok) :=
   if 100 < vs.length then some vs
+  else if !rewrittenProps.contains prop then some vs
   else if prop == S "font" || prop == S "background" || prop == S "url" then none
   else if prop == S "font-family" then minifyFontFamily vs
   else if prop == S "font-weight" then some (minifyFontWeight vs)
